@@ -500,9 +500,9 @@ fn values_match(expected: &Value, actual: &Value) -> bool {
   }
   match (expected, actual) {
     #[cfg(all(feature = "u64", feature = "f64"))]
-    (Value::F64(x), Value::U64(y)) => return (*x.borrow() as u64) == *y.borrow(),
+    (Value::F64(x), Value::U64(y)) => return *x.borrow() == (*y.borrow() as f64),
     #[cfg(all(feature = "u64", feature = "f64"))]
-    (Value::U64(x), Value::F64(y)) => return *x.borrow() == (*y.borrow() as u64),
+    (Value::U64(x), Value::F64(y)) => return (*x.borrow() as f64) == *y.borrow(),
     _ => {}
   }
   false
